@@ -127,6 +127,22 @@ class Instance(Host):
         object.__setattr__(self, '_d', {})
         object.__setattr__(self, '_interp', interp)
 
+    def __getattr__(self, name):
+        # host-side convenience: read a field / property / method of a folded instance from rule code
+        if name.startswith('__') and name.endswith('__'):
+            raise AttributeError(name)
+        d = object.__getattribute__(self, '_d')
+        if name in d:
+            return d[name]
+        it = object.__getattribute__(self, '_interp')
+        if it is None:
+            raise AttributeError(name)
+        cls = object.__getattribute__(self, '_cls')
+        try:
+            return it._class_attr(cls.mod, None, self, cls, name)
+        except AnalysisError:
+            raise AttributeError(name)
+
     # operators of repository classes (opt-in per evaluator: `instance_dunders`)
     def _dunder(self, name, *args):
         it = object.__getattribute__(self, '_interp')
@@ -283,6 +299,38 @@ class _SuperProxy(Host):
         raise AttributeError(name)
 
 
+class _HostStringIO(Host):
+    """io.StringIO as a host object (text streams handed to the bench reader)."""
+
+    def __init__(self, text=''):
+        import io
+        self._s = io.StringIO(text)
+
+    def __enter__(self):
+        return self
+
+    def __exit__(self, *a):
+        return False
+
+    def __iter__(self):
+        return iter(self._s)
+
+    def read(self, *a):
+        return self._s.read(*a)
+
+    def readline(self, *a):
+        return self._s.readline(*a)
+
+    def readlines(self):
+        return self._s.readlines()
+
+    def write(self, t):
+        return self._s.write(t)
+
+    def getvalue(self):
+        return self._s.getvalue()
+
+
 class _NullLogger(Host):
     def debug(self, *a, **k):
         return None
@@ -336,6 +384,8 @@ class Interp:
             'math.floor': __import__('math').floor,
             'logging.getLogger': lambda *a: _NullLogger(),
             'collections.defaultdict': __import__('collections').defaultdict,
+            'io.StringIO': _HostStringIO,
+            'collections.deque': __import__('collections').deque,
             'more_itertools.powerset': lambda xs: (lambda s_: __import__('itertools').chain.from_iterable(__import__('itertools').combinations(s_, r) for r in range(len(s_) + 1)))(list(xs)),
             'more_itertools.consume': lambda it_, n=None: [None for _ in it_] and None,
             'typing.cast': lambda t, v: v,
@@ -1024,6 +1074,10 @@ class Interp:
             cls, okc = env.lookup('__class__')
             inst, oki = env.lookup('self')
             if okc and oki and isinstance(inst, Instance):
+                return _SuperProxy(self, inst, cls)
+        if self.real_super and isinstance(e.func, ast.Name) and e.func.id == 'super' and len(e.args) == 2 and not e.keywords:
+            cls, inst = self.eval(mod, e.args[0], env), self.eval(mod, e.args[1], env)
+            if isinstance(cls, RepoClass) and isinstance(inst, Instance):
                 return _SuperProxy(self, inst, cls)
         fn = self.eval(mod, e.func, env)
         args = []
